@@ -270,6 +270,14 @@ impl<T: Debug + PartialEq, F: RealNumber, D: Distance<T, F>> CoverTree<T, F, D> 
             }
         }
 
+        if point_set.is_empty() {
+            // a single data point: the root keeps itself as its only child, queries look at children only
+            let mut root = self.new_leaf(idx);
+            root.children.push(self.new_leaf(idx));
+            self.root = root;
+            return;
+        }
+
         self.root = self.batch_insert(
             idx,
             self.get_scale(max_dist),
